@@ -6505,9 +6505,8 @@ bool SoPlexBase<R>::setIntParam(const IntParam param, const int value, const boo
 
    // maximum number of conjugate gradient iterations in least square scaling
    case SoPlexBase<R>::LEASTSQ_MAXROUNDS:
-      if(_scaler)
-         _scaler->setIntParam(value);
-
+      // passed to the least squares scaler itself, which may be selected only later, not to the current scaler
+      _scalerLeastsq.setIntParam(value, "leastsq_maxrounds");
       break;
 
    // mode of solution polishing
@@ -6717,9 +6716,8 @@ bool SoPlexBase<R>::setRealParam(const RealParam param, const Real value, const 
 
    // accuracy of conjugate gradient method in least squares scaling (higher value leads to more iterations)
    case SoPlexBase<R>::LEASTSQ_ACRCY:
-      if(_scaler)
-         _scaler->setRealParam(value);
-
+      // passed to the least squares scaler itself, which may be selected only later, not to the current scaler
+      _scalerLeastsq.setRealParam(value, "leastsq_acrcy");
       break;
 
    // objective offset
